@@ -94,7 +94,7 @@ class Gen:
         top = (1 << A["bits"]) - 1
         mods = []
         n = r.choice([0, 1, 1, 2, 2, 3])
-        bases32 = [0x40000000, 0x50000000, 0x1000, 0x08040000, 0xF0000000, 0x10000]
+        bases32 = [0x40000000, 0x50000000, 0x1000, 0x08040000, 0xF0000000, 0x10000, 0, 0x10, 0x800, 0xff0]   # incl. records reaching into the first page
         bases64 = [0x00007400c0000000, 0x00007500b0000000, 0x40000000, 0x0000800000000000, 0xFFFF800000000000,
                    0xFFFFFFFFFFFF0000, 0x1000, 0x0010000000000000, 0x0008000000000000, 0x0000F00000000000]
         for _ in range(n):
@@ -239,6 +239,9 @@ class Gen:
             m = r.choice(mods)
             adj = A["adj"]
             # around the first and the last byte of a module, and so that `address - adj` is exactly the end / the first byte after it
+            if m[0] < 4096 and r.chance(1, 2):
+                # a module record reaching into the first page: words in (0, 4096) inside it, and exactly 4095 / 4096 / 4097
+                return r.choice([1, 2, adj + 1, 0x10, 0x11, 0x7ff, 0x801, 0xff1, 4094, 4095, 4096, 4097, 4096 + adj, m[0] + 1, m[0] + adj + 1]) & ((1 << A["bits"]) - 1)
             return (m[0] + r.choice([0, 1, 2, adj, adj + 1, 0x100, 0x101, 0x150, 0x1ff, 0x200, 0x210, max(m[1] - 1, 0), m[1], m[1] + 1,
                                      m[1] + adj, m[1] + adj, m[1] + adj - 1, m[1] + adj + 1, m[1] - 1 + adj])) & ((1 << A["bits"]) - 1)
         return r.choice([0, 1, 4095, 4096, 4097, 4104, U32, U64 & ((1 << A["bits"]) - 1), 0x7FFFFFFFFFFF, 0x800000000000,
@@ -374,9 +377,11 @@ def build_chain(rng, arch, os_, technique, depth, top_of_space=False):
         # the outermost frame's saved fp: points to a readable word past everything (amd64 wants a readable caller bp)
         last_fp = end - pw
         data = []
+        last_rec = max([idx for idx, (k, _) in enumerate(slots) if k == "ra"] + [-1])
         for idx, (k, i) in enumerate(slots):
             if k == "pad":
-                v = 0
+                # locals between the records: return-address look-alikes (the frame-pointer technique never scans them)
+                v = (ret_addr(rng.below(200)) if rng.chance(1, 2) else 0) if idx < last_rec else 0
             elif k == "fp":
                 v = fp_addr.get(i + 1, last_fp)
             else:
@@ -411,10 +416,19 @@ def build_chain(rng, arch, os_, technique, depth, top_of_space=False):
         base &= ~(pw - 1)
         data = []
         exp = []
+        run = 0        # position inside the current gap
+        seen = 0
         for idx, (k, i) in enumerate(slots):
             if k == "pad":
-                data += le_bytes(rng.choice([0, 1, 2, 7]), pw)
+                # mips32: the MIN_ARGS words skipped for every frame but the first get code-looking values
+                if arch == 4 and seen > 0 and run < skip:
+                    data += le_bytes(ret_addr(rng.below(200)), pw)
+                else:
+                    data += le_bytes(rng.choice([0, 1, 2, 7]), pw)
+                run += 1
             else:
+                run = 0
+                seen += 1
                 data += le_bytes(ret_addr(i), pw)
                 exp.append(dict(resume=ret_addr(i), instr=ret_addr(i) - adj, sp=base + (idx + 1) * pw, trust="scan"))
         ip0 = mods[0][0] + 0x50
@@ -439,7 +453,9 @@ def build_chain(rng, arch, os_, technique, depth, top_of_space=False):
             n = ns[cur_mod]
             cfa = sp + n
             ra = ret_addr(i)
-            data += [0] * (n - pw) + le_bytes(ra, pw)
+            for _ in range(n // pw - 1):
+                data += le_bytes(ret_addr(rng.below(200)) if rng.chance(1, 2) else 0, pw)
+            data += le_bytes(ra, pw)
             exp.append(dict(resume=ra, instr=ra - adj, sp=cfa, trust="cfi"))
             sp = cfa
             cur_mod = i % nmods
@@ -449,6 +465,80 @@ def build_chain(rng, arch, os_, technique, depth, top_of_space=False):
         case = fmt_case(arch, os_, ip0, base, 0, 0, [0] * A["ngp"], "*", base, data, [tuple(m) for m in mods + extra_mods])
         return case, exp, dict(ip=ip0, sp=base)
     raise ValueError(technique)
+
+
+WIN_PROGRAM = "$T0 .raSearchStart = $eip $T0 ^ = $esp $T0 4 + ="
+WIN_PROGRAM_EBX = WIN_PROGRAM + " $ebx $T0 4 - ^ ="
+WIN_PROGRAM_RASEARCH = "$T0 .raSearch = $eip $T0 ^ = $esp $T0 4 + ="
+
+
+def win_stack(rng, depth, perturb=False):
+    """x86 thread whose functions are described by STACK WIN records (frame data with .raSearchStart programs, FPO records,
+    both kinds covering one function with DIFFERENT parameter sizes, FUNC-only parameter sizes) and STACK CFI, mixed per
+    frame.  Frame i holds [arguments pushed for its callee = parameter size of function i-1][locals][saved regs][return address].
+    Returns (case line, expected callers)."""
+    A = ARCH[0]
+    mb = 0x40000000
+    base = 0x80000000
+    os_ = rng.choice([1, 1, 0])
+    nfun = depth + 1
+    funs = []
+    for i in range(nfun):
+        kind = rng.choice(["fd", "fd", "fpo", "both", "both", "fd_ebx", "cfi", "fd_rs"])
+        saved = rng.choice([0, 4, 8]) if kind != "fd_ebx" else rng.choice([4, 8])
+        funs.append(dict(off=0x1000 + 0x200 * i, kind=kind, params=rng.choice([0, 4, 8, 12]), stale=rng.choice([0, 4, 16]),
+                         fpsize=rng.choice([0, 4, 8]), saved=saved, locals=4 * rng.range(0, 8)))
+
+    def eff_params(f):      # what fill_symbol records for a frame in this function: frame data > FPO > FUNC
+        if f["kind"] in ("fd", "both", "fd_ebx", "fd_rs"):
+            return f["params"]
+        if f["kind"] == "fpo":
+            return f["params"]
+        return f["fpsize"]
+    code = lambda i: mb + funs[i]["off"] + 0x10 + 4 * rng.below(32)
+    decoy = lambda: rng.choice([mb + funs[rng.below(nfun)]["off"] + 0x20, base + 4 * rng.below(64), rng.below(1 << 32), 0x11110000 + rng.below(100)])
+    data, exp, lines = [], [], []
+    sp = base
+    for i in range(nfun):
+        f = funs[i]
+        gcps = eff_params(funs[i - 1]) if i > 0 else 0
+        fsize = gcps + f["locals"] + f["saved"]
+        ra = code(i + 1) if i + 1 < nfun else 0
+        for _ in range(fsize // 4):
+            data += le_bytes(decoy(), 4)
+        data += le_bytes(ra, 4)
+        sp += fsize + 4
+        if ra:
+            exp.append(dict(instr=ra - 1, resume=ra, sp=sp, trust="cfi"))
+        lines.append("FUNC %x 100 %x f%d" % (f["off"], f["fpsize"], i))
+        prog = {"fd": WIN_PROGRAM, "both": WIN_PROGRAM, "fd_ebx": WIN_PROGRAM_EBX, "fd_rs": WIN_PROGRAM_RASEARCH}.get(f["kind"])
+        if prog:
+            lines.append("STACK WIN 4 %x 100 0 0 %x %x %x 0 1 %s" % (f["off"], f["params"], f["saved"], f["locals"], prog))
+        if f["kind"] == "both":
+            stale = f["stale"] if f["stale"] != f["params"] else f["params"] + 4
+            lines.append("STACK WIN 0 %x 100 0 0 %x %x %x 0 0 0" % (f["off"], stale, f["saved"], f["locals"]))
+        if f["kind"] == "fpo":
+            lines.append("STACK WIN 0 %x 100 0 0 %x %x %x 0 0 0" % (f["off"], f["params"], f["saved"], f["locals"]))
+        if f["kind"] == "cfi":
+            lines.append("STACK CFI INIT %x 100 .cfa: $esp %d + .ra: .cfa 4 - ^" % (f["off"], fsize + 4))
+    data += le_bytes(0, 4) * 2
+    if perturb:
+        k = rng.below(4)
+        if k == 0 and lines:
+            j = rng.below(len(lines))
+            t = lines[j].split(" ")
+            if t[0] == "STACK" and t[1] == "WIN":
+                t[rng.choice([7, 8, 9])] = "%x" % rng.choice([0, 4, 8, 0x10, 0xfffffff0, 0xffffffff])
+                lines[j] = " ".join(t)
+        elif k == 1:
+            data = data[:4 * rng.below(len(data) // 4 + 1)]
+        elif k == 2:
+            rng_i = rng.below(max(len(data) // 4, 1))
+            data[4 * rng_i:4 * rng_i + 4] = le_bytes(rng.choice([0, 1, 4095, mb + 0x1010, 0xffffffff]), 4)
+    sym_t = "T|" + "|".join(l.replace(" ", "~") for l in lines)
+    gp = [rng.choice([0x0b0b0b0b, 0, mb + 0x1234])] + [0] * (A["ngp"] - 1)
+    case = fmt_case(0, os_, mb + funs[0]["off"] + 0x10, base, rng.choice([0, base + 64]), 0, gp, "*", base, data, [(mb, 0x10000, sym_t)])
+    return case, exp
 
 
 def fp_supported(arch, os_):
@@ -579,6 +669,11 @@ class C05(PropBase):
         for _ in range(n_cfi):
             cases.append(g.cfi_walk_case())
         dist["cfi_rule_text_walks"] = n_cfi
+        n_win = 1500 if tier == "quick" else 15000
+        for _ in range(n_win):
+            c, _ = win_stack(rng, rng.choice([1, 2, 3, 4, 6, 9, 16]), perturb=rng.chance(2, 3))
+            cases.append(c)
+        dist["stack_win_x86"] = n_win
         n_wf = 2000 if tier == "quick" else 20000
         for _ in range(n_wf):
             arch = rng.choice([0, 1, 2, 3, 4, 5, 6])
